@@ -181,3 +181,43 @@ func VerifC04_IndexWriteFault_E() {
 		vCover("fault-reported")
 	}
 }
+
+// verifPieceReader hands out at most k bytes per Read (a pipe, a socket, stdin: readers that
+// deliver a stream in pieces that end anywhere, also inside an 8-byte field).
+type verifPieceReader struct {
+	b []byte
+	k int
+}
+
+func (r *verifPieceReader) Read(p []byte) (int, error) {
+	if len(r.b) == 0 {
+		return 0, io.EOF
+	}
+	n := r.k
+	if n > len(p) {
+		n = len(p)
+	}
+	if n > len(r.b) {
+		n = len(r.b)
+	}
+	copy(p, r.b[:n])
+	r.b = r.b[n:]
+	return n, nil
+}
+
+// VerifC04_Fragmented: reading an index does not depend on how the reader fragments the
+// stream: pieces of 1, 3, 7, 13 or 100 bytes give the same table as one piece.
+func VerifC04_Fragmented() {
+	n := vChoose("chunks", 3)
+	idx := verifSymIndex(n)
+	verifDigestFor(idx.Index.FeatureFlags)
+	var buf bytes.Buffer
+	idx.WriteTo(&buf)
+	k := []int{1, 3, 7, 13, 100}[vChoose("piece-size", 5)]
+	back, err := IndexFromReader(&verifPieceReader{b: buf.Bytes(), k: k})
+	vCover("read")
+	vAssert(err == nil, "a valid index was rejected because the reader delivered it in pieces")
+	if err == nil {
+		verifSameIndex(idx, back, "index read in pieces")
+	}
+}
